@@ -45,11 +45,12 @@ type Viol struct {
 }
 
 type Out struct {
-	ID         int    `json:"id"`
-	Violations []Viol `json:"violations,omitempty"`
-	Pieces     int    `json:"pieces_served"`
-	Rejects    int    `json:"rejects"`
-	Note       string `json:"note,omitempty"`
+	ID         int      `json:"id"`
+	Violations []Viol   `json:"violations,omitempty"`
+	Pieces     int      `json:"pieces_served"`
+	Rejects    int      `json:"rejects"`
+	Note       string   `json:"note,omitempty"`
+	Nonconf    []string `json:"nonconf,omitempty"`
 }
 
 type req struct{ i, b, l uint32 }
@@ -200,6 +201,12 @@ func (w *world) checkCounters() {
 
 // Replay is the worker-side handler.
 func Replay(in []byte) any {
+	var kind struct {
+		Kind string `json:"kind"`
+	}
+	if json.Unmarshal(in, &kind) == nil && kind.Kind == "congestion" {
+		return replayCongestion(in)
+	}
 	var sc Scenario
 	if err := json.Unmarshal(in, &sc); err != nil {
 		return &Out{Note: "bad scenario: " + err.Error()}
